@@ -1,7 +1,7 @@
 #!/usr/bin/env python3
 """Regenerate /verif/MANIFEST.json from the table below (single source of truth for the interface)."""
 import json
-HOOK_COMMITS = ["b89d4c1"]  # fix: commits 070411f 400b628 3c1ee3e are unguarded repairs, see known_findings.json
+HOOK_COMMITS = ["b89d4c1"]  # fix: commits 070411f 400b628 3c1ee3e 01706ac are unguarded repairs, see known_findings.json
 CHECKS = {
  "C01": ("model_checking", "seqx", "explicit-state BFS over handle histories on the real crate (re-execution per transition), reference-model + model-independent lifetime invariant",
          "Every reachable state of the bounded handle machine (universes S and SW: sized payload, 8- and 64-aligned, ten handle kinds incl. raw/dyn/erased/arc-swap, plus operations whose Clone panics; T and TW: thin/fat/protected/raw handles with every with_arc_mut behaviour; L: slices and str; <=5 (quick) / <=7 (thorough) live handles, <=2 live allocations) is reached by executing the real crate; in every state a model-independent invariant (value intact while a handle points at its block; destroyed exactly once and block freed when none does) and the reference model's step expectations are checked, and every transition ends with a full release and leak check. This is the right level because C01 quantifies over histories, which the bounded search enumerates to a fixpoint.",
@@ -27,7 +27,7 @@ CHECKS = {
  "C06": ("exploration", "gridx", "exhaustive enumeration of constructor x length x capacity slack x size_hint regime x element/header class with identity-tracked elements",
          "Every constructor is run for every length 0..=9 (33 thorough), Vec capacity slack, iterator size_hint regime and element/header class with identity-tracked elements: read-back equals input in order and number, nothing is destroyed while the handle lives, after release every input is destroyed exactly once and the source container's storage is gone; Copy sources and every short string over a multibyte alphabet are compared byte for byte.",
          "grid bounds as in the evidence rule"),
- "C07": ("fault_enumeration", "gridx", "exhaustive fault injection: panic at each k-th callback, every lying/changing length script within the stated bounds, each in-window allocation refused (child processes)",
+ "C07": ("fault_enumeration", "gridx", "exhaustive fault injection: panic at each k-th callback, every lying/changing length script within the stated bounds, each in-window allocation refused (child processes); re-entrant Clone releasing every subset of co-owners x panicking Clone x panicking destructor",
          "For every API that runs user code a fault-free run counts the callbacks and the API is re-run once per k with a panic armed at the k-th callback; iterators additionally lie about their length in every (reported, actual) combination with |diff|<=2 and every 3-answer changing-hint script; every constructor is re-run in a child process once per allocation with that allocation refused. Afterwards survivors are intact with accurate counts, nothing is destroyed twice, no poison is read or destroyed, only the documented half-built allocation may remain, and a refused allocation ends in the allocation-error abort.",
          "fault points are callbacks and allocations, not arbitrary instructions; arena allocator trusted"),
  "C11": ("exploration", "gridx", "exhaustive enumeration of payload shape x handle kind x into/from pairing, addresses compared with the allocator's record",
